@@ -6,7 +6,9 @@ are classes seen and equal map[predict_a], regression returns the B-side centre.
 library REJECTS (valid targets, X not prepared / of the wrong width), caught by the
 caller, after which training and querying go on: a rejected call has trained
 nothing on either side, so every clause holds for the accepted samples alone.  The same clauses are also checked on
-histories run in CHILD interpreters that strip assert statements (python -O, PYTHONOPTIMIZE=1).
+histories run in CHILD interpreters that strip assert statements (python -O, PYTHONOPTIMIZE=1).  Drawing a model
+(visualize / plot_cluster_bounds) is a call of the history like any other: the clauses hold after it and after the
+training calls that follow, also for class labels that are not 0..K-1.
 Tie: Lean SimpleARTMAP histories end-to-end on exact kernels."""
 from __future__ import annotations
 
@@ -24,13 +26,19 @@ RULE = ("cases = (A-side class, [B-side class], hyper-parameters, stream, label 
         "were and all clauses hold after it and after every later call for the accepted samples; plus the main family's "
         "histories (every A-side class x mode; fit / partial_fit batches / re-fit with other labels; identical rows with different "
         "labels) run by a self-contained script in child interpreters with assertions stripped (python -O; PYTHONOPTIMIZE=1), "
-        "all clauses evaluated there after every call and on the predictions")
+        "all clauses evaluated there after every call and on the predictions; plus histories "
+        "with PLOTTING calls between the training calls (visualize / plot_cluster_bounds on caller's axes, explicit colour "
+        "list / array / dict long enough for the class values, default palette; class labels that are not 0..K-1: gapped, "
+        "negative, offset, large, a class first seen in a later batch), then partial_fit on further batches: the map "
+        "entries before the drawing are the entries after it, map values are training classes, and every clause holds "
+        "after the drawing and after every later call; the shared plotting scenarios (harness/artv/plotpure.py) on the "
+        "supervised hosts")
 
 A_SIDES = specs.ELEM + ["DualVigilanceART", "FusionART"]
 
 
-def a_side(r, cls, n):
-    d = r.randint(1, 3)
+def a_side(r, cls, n, d=None):
+    d = r.randint(1, 3) if d is None else d
     if cls in specs.ELEM:
         spec = specs.elem_spec(r, cls, specs.width(cls, d) if cls != "FuzzyART" else d)
         return spec, specs.elem_data(r, cls, n, d, style=r.choice(["dups", "coarse", "blobs", None]))
@@ -53,42 +61,50 @@ def kw_pre(mode, eps):
     return dict(match_tracking=mode, epsilon=eps)
 
 
-def call_clauses(ctx, est, cls, use_artmap, y, targets, prev_map, rep):
+def call_clauses(ctx, est, cls, use_artmap, y, targets, prev_map, rep, tag=""):
     """the per-call clauses of C09 on an estimator whose accepted training samples are rows `targets` (in order);
-    returns (the map now, whether all clauses could be evaluated)"""
+    returns (the map now, whether all clauses could be evaluated).  `tag` (a situation, e.g. ':after-plotting-call')
+    is appended to the signatures"""
+    def issue(sig, what):
+        ctx.issue("violation", sig + tag, what, rep)
     cur = {int(p): int(q) for p, q in est.map.items()}
     # functional for the whole history: entries never change
     changed = {c: (prev_map[c], cur.get(c)) for c in prev_map if cur.get(c) != prev_map[c]}
     if changed:
-        ctx.issue("violation", f"{cls}:map-overwritten", f"entries changed: {changed}", rep)
+        issue(f"{cls}:map-overwritten", f"entries changed: {changed}")
     na = est.module_a.n_clusters   # for DualVigilanceART these are the cluster labels step_fit returns
     la = np.asarray(est.labels_a)
     lb = np.asarray(est.labels_b)
     if len(la) != len(targets) or len(lb) != len(targets):
-        ctx.issue("violation", f"{cls}:labels-length", f"labels_a {len(la)} labels_b {len(lb)} samples {len(targets)}", rep)
+        issue(f"{cls}:labels-length", f"labels_a {len(la)} labels_b {len(lb)} samples {len(targets)}")
         return cur, False
     if sorted(cur.keys()) != list(range(na)) or not set(la.tolist()) <= set(cur):
-        ctx.issue("violation", f"{cls}:map-domain", f"map keys {sorted(cur)}, {na} A-side categories, A-labels used {sorted(set(la.tolist()))}", rep)
+        issue(f"{cls}:map-domain", f"map keys {sorted(cur)}, {na} A-side categories, A-labels used {sorted(set(la.tolist()))}")
     try:
         mapped = np.asarray(est.map_a2b(la))
     except Exception as e:
-        ctx.issue("violation", f"{cls}.map_a2b:{exc_enum(e)}", repr(e), rep)
+        issue(f"{cls}.map_a2b:{exc_enum(e)}", repr(e))
         return cur, False
     if not np.array_equal(mapped, lb):
-        ctx.issue("violation", f"{cls}:map_a2b(labels_a)!=targets", f"mapped {mapped.tolist()} targets {lb.tolist()}", rep)
+        issue(f"{cls}:map_a2b(labels_a)!=targets", f"mapped {mapped.tolist()} targets {lb.tolist()}")
     try:
         one = [int(est.map_a2b(int(c))) for c in la.tolist()]
         if one != [int(cur[int(c)]) for c in la.tolist()]:
-            ctx.issue("violation", f"{cls}:map_a2b(scalar)!=map", f"{one} vs map {cur} on {la.tolist()}", rep)
+            issue(f"{cls}:map_a2b(scalar)!=map", f"{one} vs map {cur} on {la.tolist()}")
     except Exception as e:
-        ctx.issue("violation", f"{cls}.map_a2b(scalar):{exc_enum(e)}", repr(e), rep)
+        issue(f"{cls}.map_a2b(scalar):{exc_enum(e)}", repr(e))
     if not use_artmap and not np.array_equal(lb, y[targets]):
-        ctx.issue("violation", f"{cls}:labels_b!=y", f"labels_b {lb.tolist()} y {y[targets].tolist()}", rep)
+        issue(f"{cls}:labels_b!=y", f"labels_b {lb.tolist()} y {y[targets].tolist()}")
+    # a category is mapped to a class of the training history (what any prediction through it returns)
+    trained = set(range(est.module_b.n_clusters)) if use_artmap else set(int(t) for t in np.asarray(y)[targets].tolist())
+    if not set(cur.values()) <= trained:
+        issue(f"{cls}:map-value-not-a-training-class", f"map {cur}; training classes {sorted(trained)}")
     return cur, True
 
 
-def pred_clauses(ctx, est, cls, acls, use_artmap, q, desc):
-    """the prediction clauses of C09 on queries q"""
+def pred_clauses(ctx, est, cls, acls, use_artmap, q, desc, regression=None):
+    """the prediction clauses of C09 on queries q (regression: None = whenever the host is an ARTMAP)"""
+    regression = use_artmap if regression is None else regression
     try:
         with quiet():
             p = np.asarray(est.predict(q))
@@ -98,7 +114,7 @@ def pred_clauses(ctx, est, cls, acls, use_artmap, q, desc):
             ctx.issue("violation", f"{cls}.predict:class-never-seen", f"{p.tolist()} seen {sorted(seen)}", desc)
         if [est.map[int(c)] for c in a_] != p.tolist() or not np.array_equal(np.asarray(b_), p):
             ctx.issue("violation", f"{cls}.predict!=map[predict_a]", f"a {list(a_)} b {list(b_)} p {p.tolist()}", desc)
-        if use_artmap:
+        if use_artmap and regression:
             with quiet():
                 reg = np.asarray(est.predict_regression(q))
                 cen = est.module_b.get_cluster_centers()
@@ -571,6 +587,258 @@ def run_optimized(ctx, groups):
                          info["classes"] >= 2 and info["categories"] >= 2)
 
 
+# ------------------------------------------------------------------------------------------------------------------
+# Plotting calls inside supervised histories.  Drawing a trained model (visualize, plot_cluster_bounds on the caller's
+# axes) is a call of the history like any other: C09 speaks about the map "for the whole history", so the entries
+# before the drawing are the entries after it, and every clause holds after the drawing and after the training calls
+# that follow.  The colour table is indexed by CLASS, so class labels that are not 0..K-1 (gapped, negative, offset,
+# large ids, a class that first appears in a later batch) are the situations in which a drawing routine has to
+# translate classes — and must not do so in the estimator's own map.
+
+def _pyplot():
+    try:
+        import matplotlib
+        matplotlib.use("Agg")
+        import matplotlib.pyplot as plt
+        return plt
+    except Exception:   # noqa
+        return None
+
+
+def class_values(r, k):
+    """k distinct class labels (ints) in a coding that is not 0..k-1, and the name of the coding"""
+    style = r.choice(["gapped", "gapped", "negative", "offset", "large", "plain"])
+    if style == "gapped":
+        vals = r.sample(range(0, 12), k)
+        if sorted(vals) == list(range(k)):
+            vals[vals.index(max(vals))] = k + r.randint(1, 5)      # e.g. {3, 7}
+    elif style == "negative":
+        vals = r.sample(range(-6, 5), k)
+        if min(vals) >= 0:
+            vals[0] = -r.randint(1, 6)                             # e.g. the {-1, +1} coding
+    elif style == "offset":
+        base = r.choice([1, 2, 5])
+        vals = [base + j for j in range(k)]
+        r.shuffle(vals)
+    elif style == "large":
+        base = r.choice([1000, 10 ** 5, 202401, 2 ** 40])
+        vals = [base + j * r.choice([1, 1, 7]) for j in range(k)]
+        vals = sorted(set(vals))
+        while len(vals) < k:
+            vals.append(vals[-1] + 1)
+        r.shuffle(vals)
+    else:
+        vals = list(range(k))     # 0..k-1: not every class need be in the first batch
+        r.shuffle(vals)
+    return [int(v) for v in vals], style
+
+
+def colour(j):
+    return (0.1 * (j % 10), 0.25 + 0.05 * (j % 7), 0.5, 1.0)
+
+
+def colour_table(r, classes, style):
+    """a colour table the caller indexes by class, long enough for every class value of the history (also the classes
+    of later batches): list / ndarray (negative classes index from the end), or a dict keyed by class"""
+    lo, hi = min(classes), max(classes)
+    if style == "large":
+        return "dict", {int(c): colour(j) for j, c in enumerate(sorted(classes))}
+    L = max(hi + 1, -lo, 1) + r.choice([0, 0, 1, 3])
+    form = r.choice(["list", "list", "ndarray", "dict"])
+    if form == "dict":
+        return form, {int(c): colour(j) for j, c in enumerate(sorted(classes))}
+    cols = [colour(j) for j in range(L)]
+    return form, (np.array(cols) if form == "ndarray" else cols)
+
+
+def draw(plt, est, call, X, yvis, table):
+    """one plotting call of the public API; returns the exception it raised (None if it drew)"""
+    try:
+        with quiet():
+            fig, ax = plt.subplots()
+            if call == "plot_cluster_bounds":
+                est.plot_cluster_bounds(ax, table)
+            elif call == "plot_cluster_bounds:linewidth":
+                est.plot_cluster_bounds(ax, table, linewidth=2)
+            elif call == "visualize":
+                est.visualize(X, yvis, ax=ax, colors=table)
+            elif call == "visualize:own-axes":
+                est.visualize(X, yvis, colors=table)
+            elif call == "visualize:default-palette":
+                est.visualize(X, yvis, ax=ax)
+            else:
+                raise RuntimeError(call)
+        return None
+    except Exception as e:   # noqa
+        return e
+    finally:
+        plt.close("all")
+
+
+def plotting_inside_histories(ctx, N, nmax):
+    """SimpleARTMAP / ARTMAP histories: first batch(es) by fit or partial_fit; the model is drawn (one or two plotting
+    calls); partial_fit goes on with further batches (which may bring new classes); perhaps drawn again; predictions.
+    All clauses after every call — the drawing included: map entries never change, map_a2b(labels_a) == targets,
+    map values are training classes, predictions are trained classes and equal map[predict_a]."""
+    cov = ctx.cov
+    plt = _pyplot()
+    if plt is None:
+        cov.hit("plot:matplotlib-missing")
+        return
+    for i in range(N):
+        r = gen.rng_for(ctx.seed, "C09-plot", i)
+        acls = A_SIDES[i % len(A_SIDES)]
+        mode = MODES[(i // len(A_SIDES)) % 5]
+        eps = r.choice([1e-10, 0.0, 2.0 ** -20, 2.0 ** -10, 0.125])
+        n = r.randint(4, nmax)
+        aspec, X = a_side(r, acls, n, d=r.choice([2, 2, 2, 3]))
+        X = np.array(X, dtype=float)
+        use_artmap = r.random() < 0.2
+        kcls = r.randint(2, 4)
+        if use_artmap:
+            # the classes of an ARTMAP are its B-side categories (always 0..K-1, numbered in order of appearance)
+            bcls = r.choice(["FuzzyART", "HypersphereART", "ART2A"])
+            db = r.randint(1, 2)
+            bspec = specs.elem_spec(r, bcls, specs.width(bcls, db) if bcls != "FuzzyART" else db)
+            if bspec.get("alpha") == 0.0:
+                bspec["alpha"] = 2.0 ** -10
+            centers = gen.grid_rows(r, kcls, db, style="coarse")
+            yraw = np.array([centers[r.randrange(kcls)] for _ in range(n)])
+            y = gen.cc(yraw) if bcls == "FuzzyART" else yraw
+            spec = {"cls": "ARTMAP", "module_a": aspec, "module_b": bspec}
+            coding, classes = "B-side categories", list(range(n + 1))
+        else:
+            vals, coding = class_values(r, kcls)
+            y = np.array([vals[int(t)] for t in gen.labels(r, n, kcls)], dtype=np.int64)
+            spec = {"cls": "SimpleARTMAP", "module_a": aspec}
+            classes = vals
+        cls = spec["cls"]
+        kw = dict(match_tracking=mode, epsilon=eps)
+        epochs = r.choice([1, 1, 2])
+        h = r.randint(2, n - 1)                     # rows 0:h before the drawing, h:n after it
+        if r.random() < 0.5:
+            calls = [("fit", 0, h)]
+        else:
+            calls, j = [], 0
+            for p in gen.compositions(r, h):
+                calls.append(("pfit", j, j + p))
+                j += p
+        form, table = colour_table(r, classes, coding if not use_artmap else "plain")
+        pool = ["plot_cluster_bounds", "plot_cluster_bounds", "visualize", "visualize", "plot_cluster_bounds:linewidth"]
+        if form != "dict":
+            pool += ["visualize:own-axes"]
+        else:
+            pool = [c for c in pool if not c.startswith("visualize")]    # visualize enumerates the table: a sequence
+        if r.random() < 0.15:
+            pool = ["visualize:default-palette"]
+        plots = [r.choice(pool) for _ in range(r.choice([1, 1, 2]))]
+        calls += [(pc, 0, h) for pc in plots]
+        j = h
+        for p in gen.compositions(r, n - h):
+            calls.append(("pfit", j, j + p))
+            j += p
+        if r.random() < 0.4:
+            calls.append((r.choice(pool), 0, n))
+        yvis_kind = r.choice(["targets", "labels_b"])
+        desc = {"spec": spec, "X": X.tolist(), "y": y.tolist(), "mode": mode, "eps": eps, "epochs": epochs, "class_coding": coding,
+                "colors": {"form": form, "table": ({str(c): list(v) for c, v in table.items()} if form == "dict" else np.asarray(table).tolist())},
+                "calls": [{"op": op, "rows": [a, b]} if op in ("fit", "pfit") else
+                          {"op": op, "X": f"X[0:{b}]", "y": "est.labels_b" if yvis_kind == "labels_b" or use_artmap else f"y[0:{b}]",
+                           "colors": None if op.endswith("default-palette") else "colors.table (indexed by class)"} for op, a, b in calls]}
+        try:
+            est = make(spec)
+            if use_artmap and bcls == "FuzzyART":
+                with quiet():
+                    est.module_b.prepare_data(np.array([[0.0] * db, [1.0] * db]))
+        except Exception as e:
+            ctx.issue("violation", f"{cls}({acls}).__init__:{exc_enum(e)}", repr(e), desc)
+            continue
+        prev_map, targets, ok, drawn, nplot = {}, [], True, 0, 0
+        for k, (op, a, b) in enumerate(calls):
+            rep = dict(desc, after_call=k)
+            if op in ("fit", "pfit"):
+                try:
+                    with quiet():
+                        if op == "fit":
+                            est.fit(X[a:b], y[a:b], max_iter=epochs, **kw)
+                            prev_map, targets = {}, list(range(a, b))
+                        else:
+                            est.partial_fit(X[a:b], y[a:b], **kw)
+                            targets = targets + list(range(a, b))
+                except Exception as e:
+                    ctx.issue("violation", f"{cls}({acls}).{op}:{exc_enum(e)}" + (":after-plotting-call" if nplot else ""),
+                              f"{op} rows {a}:{b} raised {e!r} (mode {mode}; {nplot} plotting calls before)", rep)
+                    ok = False
+                    break
+                tag = ":after-plotting-call" if nplot else ""
+            else:
+                yvis = np.asarray(est.labels_b) if (yvis_kind == "labels_b" or use_artmap) else y[:b].copy()
+                raised = draw(plt, est, op, X[:b], yvis, table)
+                nplot += 1
+                if raised is None:
+                    drawn += 1
+                    cov.hit(f"plotting-call-in-history:{op}:drawn")
+                else:
+                    # tolerated: not every model can be drawn (no plot_cluster_bounds for the A-side, 3 features,
+                    # arctan2 of complex eigenvectors, a palette that has no entry for a class)
+                    cov.hit(f"plotting-call-in-history:{op}:raised:{exc_enum(raised)}")
+                tag = ":after-plotting-call"
+            prev_map, done = call_clauses(ctx, est, cls, use_artmap, y, targets, prev_map, rep, tag=tag)
+            if done and nplot:
+                cov.hit(f"call-checked-after-plotting-call:{cls}:{'training' if op in ('fit', 'pfit') else 'drawing'}")
+        if not ok:
+            continue
+        q = X[[r.randrange(n) for _ in range(min(n, 6))]]
+        pred_clauses(ctx, est, cls, acls, use_artmap, q, dict(desc, after_call="all"))
+        if not use_artmap:
+            cov.hit(f"plotting-call-in-history:class-coding:{coding}")
+            if set(y[:h].tolist()) != set(y.tolist()):
+                cov.hit("plotting-call-in-history:new-class-after-the-drawing")
+            if sorted(set(y[:h].tolist())) != list(range(len(set(y[:h].tolist())))):
+                cov.hit("plotting-call-in-history:classes-at-drawing-not-0..K-1" + (":drawn" if drawn else ""))
+        cov.hit(f"plotting-call-in-history:colors:{form}")
+        ncls = len(set(np.asarray(est.labels_b).tolist()))
+        cov.case(("plot", spec, desc["X"], desc["y"], mode, eps, desc["calls"], desc["colors"]["form"]), ncls >= 2 and len(est.map) >= 2)
+
+
+def shared_plotting_scenarios(ctx):
+    """the shared generator of plotting calls inside histories (harness/artv/plotpure.py) on the supervised hosts: the
+    clauses of C09 on the estimator after the plotting call (the map entries are those of before), and after a
+    partial_fit that goes on"""
+    from .. import plotpure
+    cov = ctx.cov
+    for sc in plotpure.scenarios(ctx, "C09", quick=24, thorough=240):
+        if sc.kind not in ("SimpleARTMAP", "ARTMAP") or sc.before is None:
+            continue
+        cls = sc.kind
+        use_artmap = cls == "ARTMAP"
+        est, y, n = sc.est, np.asarray(sc.rows.arrs["y"]), len(sc.rows)
+        desc = dict(sc.desc, trained_by=sc.trained_by, plot_raised=sc.raised, state_changed_by_plot=sc.changed[:12])
+        acls = getattr(sc.fam, "a_cls", "?")
+        try:
+            prev_map = dict(sc.before.get("map", {}))
+            targets = list(range(n))
+            prev_map, done = call_clauses(ctx, est, cls, use_artmap, y, targets, prev_map, dict(desc, after_call=sc.plot), tag=":after-plotting-call")
+            k = 1 + (n > 2)
+            try:
+                sc.fam.pfit(est, sc.rows.sl(0, k))
+            except Exception as e:
+                ctx.issue("violation", f"{cls}({acls}).pfit:{exc_enum(e)}:after-plotting-call", f"partial_fit rows 0:{k} after {sc.plot} raised {e!r}",
+                          dict(desc, then_partial_fit_rows=k))
+                continue
+            # the rows presented again are further samples of the history: rows 0..n-1, then 0..k-1
+            y2 = np.concatenate([y, y[:k]])
+            call_clauses(ctx, est, cls, use_artmap, y2, list(range(n + k)), prev_map, dict(desc, then_partial_fit_rows=k, after_call="partial_fit"),
+                         tag=":after-plotting-call")
+            pred_clauses(ctx, est, cls, acls, use_artmap, sc.rows.arrs["X"][: min(n, 6)], dict(desc, then_partial_fit_rows=k, after_call="all"),
+                         regression=False)
+            if done:
+                cov.hit(f"shared-plotting-scenario:clauses-checked:{cls}:{sc.plot}" + (":raised" if sc.raised else ""))
+        except Exception as e:
+            cov.hit(f"shared-plotting-scenario:oracle-could-not-run:{cls}:{exc_enum(e)}")
+        cov.case(("shared-plot", sc.fam.spec, sc.desc["rows"], sc.plot, sc.trained_by), len(est.map) >= 2)
+
+
 def run(ctx):
     cov = ctx.cov
     N = ctx.scale(360, 8000)
@@ -704,5 +972,7 @@ def run(ctx):
             cov.sample({"spec": spec, "mode": mode, "eps": eps, "n": n, "calls": calls, "map": dict(est.map)})
     rejected_call_histories(ctx, ctx.scale(240, 3000), ctx.scale(14, 40))
     optimized_interpreter_histories(ctx, ctx.scale(100, 1000), ctx.scale(12, 30))
+    plotting_inside_histories(ctx, ctx.scale(70, 900), ctx.scale(12, 30))
+    shared_plotting_scenarios(ctx)
     e2e.smap_histories(ctx, "C09", ctx.scale(200, 4000), ctx.scale(16, 60))
     e2e.smap_epoch_histories(ctx, "C09", ctx.scale(80, 1500), ctx.scale(12, 40))
